@@ -224,7 +224,7 @@ dashmap = { path = "../harness/vendor/dashmap" }
     lock_dst = os.path.join(hdir, "Cargo.lock")
     if not os.path.exists(lock_dst):
         shutil.copy(os.path.join(REPO, "Cargo.lock"), lock_dst)
-    rc, out = sh("cargo build --offline --target-dir %s 2>&1" % os.path.join(CACHE, "target"), cwd=hdir, timeout=timeout)
+    rc, out = sh("cargo build --offline --target-dir %s 2>&1" % os.path.join(CACHE, "target_h4"), cwd=hdir, timeout=timeout)
     if rc != 0:
         raise TieBroken("h4-build", out[-3000:])
     d = os.path.join(CACHE, "target_h4", "debug")
